@@ -223,7 +223,7 @@ partial def loop (f : String → String) (h : IO.FS.Stream) (out : IO.FS.Stream)
   let line ← h.getLine
   if line.isEmpty then pure ()
   else
-    out.putStrLn (f (line.trimRight))
+    out.putStrLn (f ((line.replace "\n" "").replace "\r" ""))
     loop f h out
 
 def main (args : List String) : IO Unit := do
